@@ -29,6 +29,9 @@ def check(ctx):
     # ---- SEM: the actor loop, found by role and interpreted on a queue of requests (actor_abs) -------------------------------
     import actor_abs
     sem = actor_abs.check_clock_actor(ctx, facts, 'C11.SEM')
+    # the client side of the clock, interpreted: every foreign stamp handed to register_ts reaches the actor on every path
+    # (with a waiting send), get_time returns exactly the actor's reply to its own request
+    sem_handle = actor_abs.check_clock_handle(ctx, facts, 'C11.SEM')
     group = set()
     actor_body = None
     if sem:
